@@ -19,6 +19,8 @@ type Cfg struct {
 
 	MaxPipelines  int
 	MaxTasks      int
+	MinTasks      int
+	Shapes        []string // task graph shapes to draw from (nil = default mix)
 	MaxConc       int
 	DelayPct      int   // percentage of pipelines with a start delay
 	LimitChoices  []int // -1 = unset
@@ -70,7 +72,15 @@ func GenTasks(t *rapid.T, cfg *Cfg, cyclic bool, tag string) map[string]definiti
 	}
 	n := rapid.IntRange(1, maxT).Draw(t, "nTasks")
 	names := rapid.Permutation(taskNamePool).Draw(t, "taskNames")[:n]
-	shape := rapid.SampledFrom([]string{"random", "random", "chain", "diamond", "fan", "independent"}).Draw(t, "shape")
+	if cfg.MinTasks > 0 && cfg.MinTasks <= maxT {
+		n = rapid.IntRange(cfg.MinTasks, maxT).Draw(t, "nTasksMin")
+		names = rapid.Permutation(taskNamePool).Draw(t, "taskNames2")[:n]
+	}
+	shapes := []string{"random", "random", "chain", "diamond", "fan", "independent"}
+	if len(cfg.Shapes) > 0 {
+		shapes = cfg.Shapes
+	}
+	shape := rapid.SampledFrom(shapes).Draw(t, "shape")
 	deps := make([][]int, n)
 	switch shape {
 	case "chain":
@@ -97,6 +107,42 @@ func GenTasks(t *rapid.T, cfg *Cfg, cyclic bool, tag string) map[string]definiti
 			}
 		}
 	case "independent":
+	case "dense":
+		// many converging paths and long chains at once
+		for i := 1; i < n; i++ {
+			for j := 0; j < i; j++ {
+				if rapid.IntRange(0, 99).Draw(t, "denseEdge") >= 45 {
+					deps[i] = append(deps[i], j)
+				}
+			}
+		}
+	case "layered":
+		// three layers; every node depends on a non-empty subset of the previous layer, sometimes also on the one before
+		layer := make([]int, n)
+		for i := range layer {
+			layer[i] = i * 3 / n
+		}
+		for i := 0; i < n; i++ {
+			if layer[i] == 0 {
+				continue
+			}
+			for j := 0; j < i; j++ {
+				if layer[j] == layer[i]-1 && rapid.Bool().Draw(t, "layerEdge") {
+					deps[i] = append(deps[i], j)
+				}
+				if layer[j] == layer[i]-2 && rapid.IntRange(0, 3).Draw(t, "skipEdge") == 0 {
+					deps[i] = append(deps[i], j)
+				}
+			}
+			if len(deps[i]) == 0 {
+				for j := 0; j < i; j++ {
+					if layer[j] == layer[i]-1 {
+						deps[i] = []int{j}
+						break
+					}
+				}
+			}
+		}
 	default:
 		for i := 1; i < n; i++ {
 			for j := 0; j < i; j++ {
